@@ -244,7 +244,14 @@ Theorem C09_bytes_dead_handle_rejected : forall s h,
   /\ (forall w be off bits, b_step s (BWriteF w be h off bits) = (s, BErr))
   /\ (forall off len v, (len <> 0)%Z -> b_step s (BFill h off len v) = (s, BErr))
   /\ (forall so dh doff len, (len <> 0)%Z -> b_step s (BCopy h so dh doff len) = (s, BErr))
-  /\ (forall sh so doff len, (len <> 0)%Z -> b_step s (BCopy sh so h doff len) = (s, BErr)).
+  /\ (forall sh so doff len, (len <> 0)%Z -> b_step s (BCopy sh so h doff len) = (s, BErr))
+  /\ b_step s (BClone h) = (s, BErr)
+  /\ (forall g, b_step s (BEquals h g) = (s, BErr) /\ b_step s (BEquals g h) = (s, BErr))
+  /\ (forall off len, b_step s (BDecode h off len) = (s, BErr))
+  /\ (forall off bs, b_step s (BWriteString h off bs) = (s, BErr))
+  /\ (forall st sp nd, b_step s (BFind h st sp nd) = (s, BErr))
+  /\ (forall off len, (len <> 0)%Z -> b_step s (BReverse h off len) = (s, BErr))
+  /\ (forall i j, b_step s (BSwap h i j) = (s, BErr)).
 Proof. exact b_dead_handle_rejected_lemma. Qed.
 
 Theorem C09_bytes_free_makes_stale : forall s h s',
